@@ -301,42 +301,51 @@ func extraValues(full bool) []extraVal {
 	}
 	if !full {
 		return []extraVal{
-			ev(`{k:"s"}`, func() map[string]any { return map[string]any{"k": "s"} }),
-			nilv(`{k:nil}`, func() map[string]any { return map[string]any{"k": nil} }),
-			ev(`{k:map{a:"s"}}`, func() map[string]any { return map[string]any{"k": map[string]any{"a": "s"}} }),
+			ev(`{s:"a"}`, func() map[string]any { return map[string]any{"s": "a"} }),
+			nilv(`{n:nil}`, func() map[string]any { return map[string]any{"n": nil} }),
+			ev(`{m:map{a:"s"}}`, func() map[string]any { return map[string]any{"m": map[string]any{"a": "s"}} }),
 		}
 	}
 	return []extraVal{
 		ev(`{}`, func() map[string]any { return map[string]any{} }),
-		ev(`{k:"s"}`, func() map[string]any { return map[string]any{"k": "s"} }),
-		ev(`{k:"t"}`, func() map[string]any { return map[string]any{"k": "t"} }),
-		ev(`{k:""}`, func() map[string]any { return map[string]any{"k": ""} }),
-		ev(`{k:1}`, func() map[string]any { return map[string]any{"k": 1} }),
-		ev(`{k:2}`, func() map[string]any { return map[string]any{"k": 2} }),
-		nilv(`{k:nil}`, func() map[string]any { return map[string]any{"k": nil} }),
-		ev(`{k:true}`, func() map[string]any { return map[string]any{"k": true} }),
-		ev(`{k:1.5}`, func() map[string]any { return map[string]any{"k": 1.5} }),
-		ev(`{k:map{a:"s"}}`, func() map[string]any { return map[string]any{"k": map[string]any{"a": "s"}} }),
-		ev(`{k:map{a:"t" b:1}}`, func() map[string]any { return map[string]any{"k": map[string]any{"a": "t", "b": 1}} }),
-		ev(`{k:map{}}`, func() map[string]any { return map[string]any{"k": map[string]any{}} }),
-		nilv(`{k:map{a:nil}}`, func() map[string]any { return map[string]any{"k": map[string]any{"a": nil}} }),
-		ev(`{k:map[string]string{a:"s"}}`, func() map[string]any { return map[string]any{"k": map[string]string{"a": "s"}} }),
-		ev(`{k:Unreg{1}}`, func() map[string]any { return map[string]any{"k": C14Unreg{A: 1}} }),
-		ev(`{k:Unreg{0}}`, func() map[string]any { return map[string]any{"k": C14Unreg{}} }),
-		ev(`{k:Unreg{2}}`, func() map[string]any { return map[string]any{"k": C14Unreg{A: 2}} }),
-		ev(`{k:(*Unreg)(nil)}`, func() map[string]any { return map[string]any{"k": (*C14Unreg)(nil)} }),
-		ev(`{k:&Unreg{1}}`, func() map[string]any { return map[string]any{"k": &C14Unreg{A: 1}} }),
-		ev(`{j:"s"}`, func() map[string]any { return map[string]any{"j": "s"} }),
-		ev(`{j:"t" k:"s"}`, func() map[string]any { return map[string]any{"k": "s", "j": "t"} }),
-		ev(`{k:&Message{content x}}`, func() map[string]any { return map[string]any{"k": &schema.Message{Content: "x"}} }),
-		ev(`{k:(*Message)(nil)}`, func() map[string]any { return map[string]any{"k": (*schema.Message)(nil)} }),
-		ev(`{k:[]*Message{A}}`, func() map[string]any { return map[string]any{"k": []*schema.Message{listMsg("A")}} }),
-		ev(`{k:[]*Message{A B}}`, func() map[string]any {
-			return map[string]any{"k": []*schema.Message{listMsg("A"), listMsg("B")}}
+		// strings under s (and an int under s: type conflict)
+		ev(`{s:"a"}`, func() map[string]any { return map[string]any{"s": "a"} }),
+		ev(`{s:"b"}`, func() map[string]any { return map[string]any{"s": "b"} }),
+		ev(`{s:""}`, func() map[string]any { return map[string]any{"s": ""} }),
+		ev(`{s:1}`, func() map[string]any { return map[string]any{"s": 1} }),
+		// scalars
+		ev(`{i:1}`, func() map[string]any { return map[string]any{"i": 1} }),
+		ev(`{i:2}`, func() map[string]any { return map[string]any{"i": 2} }),
+		ev(`{b:true}`, func() map[string]any { return map[string]any{"b": true} }),
+		ev(`{f:1.5}`, func() map[string]any { return map[string]any{"f": 1.5} }),
+		ev(`{i:1 s:"a"}`, func() map[string]any { return map[string]any{"s": "a", "i": 1} }),
+		// untyped nil
+		nilv(`{n:nil}`, func() map[string]any { return map[string]any{"n": nil} }),
+		// nested maps under m
+		ev(`{m:map{a:"s"}}`, func() map[string]any { return map[string]any{"m": map[string]any{"a": "s"}} }),
+		ev(`{m:map{a:"t" b:1}}`, func() map[string]any { return map[string]any{"m": map[string]any{"a": "t", "b": 1}} }),
+		ev(`{m:map{}}`, func() map[string]any { return map[string]any{"m": map[string]any{}} }),
+		nilv(`{m:map{a:nil}}`, func() map[string]any { return map[string]any{"m": map[string]any{"a": nil}} }),
+		ev(`{m:map[string]string{a:"s"}}`, func() map[string]any { return map[string]any{"m": map[string]string{"a": "s"}} }),
+		// unregistered struct / pointer
+		ev(`{u:Unreg{1}}`, func() map[string]any { return map[string]any{"u": C14Unreg{A: 1}} }),
+		ev(`{u:Unreg{0}}`, func() map[string]any { return map[string]any{"u": C14Unreg{}} }),
+		ev(`{u:Unreg{2}}`, func() map[string]any { return map[string]any{"u": C14Unreg{A: 2}} }),
+		ev(`{p:(*Unreg)(nil)}`, func() map[string]any { return map[string]any{"p": (*C14Unreg)(nil)} }),
+		ev(`{p:&Unreg{1}}`, func() map[string]any { return map[string]any{"p": &C14Unreg{A: 1}} }),
+		// messages, message lists, registered type, slices
+		ev(`{g:&Message{content x}}`, func() map[string]any { return map[string]any{"g": &schema.Message{Content: "x"}} }),
+		ev(`{g:&Message{B}}`, func() map[string]any { return map[string]any{"g": listMsg("B")} }),
+		ev(`{g:(*Message)(nil)}`, func() map[string]any { return map[string]any{"g": (*schema.Message)(nil)} }),
+		ev(`{l:[]*Message{A}}`, func() map[string]any { return map[string]any{"l": []*schema.Message{listMsg("A")}} }),
+		ev(`{l:[]*Message{B}}`, func() map[string]any { return map[string]any{"l": []*schema.Message{listMsg("B")}} }),
+		ev(`{l:[]*Message{A B}}`, func() map[string]any {
+			return map[string]any{"l": []*schema.Message{listMsg("A"), listMsg("B")}}
 		}),
-		ev(`{k:Reg{p 1}}`, func() map[string]any { return map[string]any{"k": C14Reg{S: "p", N: 1}} }),
-		ev(`{k:[]string{a}}`, func() map[string]any { return map[string]any{"k": []string{"a"}} }),
-		ev(`{k:[]any{1}}`, func() map[string]any { return map[string]any{"k": []any{1}} }),
+		ev(`{r:Reg{p 1}}`, func() map[string]any { return map[string]any{"r": C14Reg{S: "p", N: 1}} }),
+		ev(`{r:Reg{q 2}}`, func() map[string]any { return map[string]any{"r": C14Reg{S: "q", N: 2}} }),
+		ev(`{t:[]string{a}}`, func() map[string]any { return map[string]any{"t": []string{"a"}} }),
+		ev(`{t:[]string(nil)}`, func() map[string]any { return map[string]any{"t": []string(nil)} }),
 	}
 }
 
@@ -406,7 +415,7 @@ func listMsg(which string) *schema.Message {
 	case "U":
 		return &schema.Message{Role: schema.User, Content: "z"}
 	case "N":
-		return &schema.Message{Content: "w", Extra: map[string]any{"k": nil}}
+		return &schema.Message{Content: "w", Extra: map[string]any{"n": nil}}
 	}
 	return nil
 }
@@ -454,9 +463,8 @@ func mapFamily() *fam[map[string]any] {
 		f.syms = append(f.syms, s)
 	}
 	f.syms = append(f.syms,
-		sym[map[string]any]{label: "map{k:&Message{B}}", mk: func() map[string]any { return map[string]any{"k": listMsg("B")} }},
-		sym[map[string]any]{label: "map{k:&Message{A}}", mk: func() map[string]any { return map[string]any{"k": listMsg("A")} }},
-		sym[map[string]any]{label: "map{k:&Message{N}}", feats: []string{featNilInExtra}, mk: func() map[string]any { return map[string]any{"k": listMsg("N")} }},
+		sym[map[string]any]{label: "map{g:&Message{A}}", mk: func() map[string]any { return map[string]any{"g": listMsg("A")} }},
+		sym[map[string]any]{label: "map{g:&Message{N}}", feats: []string{featNilInExtra}, mk: func() map[string]any { return map[string]any{"g": listMsg("N")} }},
 	)
 	return f
 }
